@@ -78,3 +78,17 @@ def trace(rep, tier, seed, clauses, ops=None):
     sel = (lambda e: e["op"] in ops) if ops else None
     return suite_rel.trace(rep, "vec", "Trace_Vector", "Trace_Vector.cfg", "record", [seed, n], SPEC_KEYS, clauses,
                            hashseed=seed % 1000, driver="drv_vec.py", select=sel)
+
+
+def enumerated(rep, which, clauses):
+    import json
+    import os
+    sc = engine.scratch()
+    op = os.path.join(sc, f"vec_{which}_out.json")
+    engine.run_driver("drv_vec.py", [which, op], timeout=900)
+    out = json.load(open(op))
+    rep.gen_cases += out["executed"]
+    for f in out["failures"]:
+        if f["clause"] in clauses:
+            rep.fail(f["clause"], "vec." + which, f["case"], f["observed"], f["expected"])
+    return {k: out.get(k, []) for k in ("truth", "rule", "writeback")}
